@@ -2,6 +2,10 @@
 """Regenerates MANIFEST.json from the table below (kept in one place so it stays valid)."""
 import json, subprocess
 CLAIMED = {
+ "C12": dict(cat="exploration", tech="deterministic simulation of histories over the FastCheckCache seam (persistent, lossy cache; build - fast check - edit - rebuild - fast check), compared with cache-less runs on the same graph and under another hash seed",
+   text="Histories of length 2-4 over generated TypeScript packages; after every fast check with the persistent cache the same graph is fast-checked without a cache (transparency of emitted output), again under another hash seed (determinism), and checked for the per-package all-or-nothing rule in both states and for recorded dependencies matching the emitted text. Sampled by seed.",
+   note="The generated declarations are a small language sufficient for emit/diagnostic outcomes; with a cache, diagnostics are compared as presence only (the cached path reports a placeholder).", ref="DESIGN.md §3 C12"),
+
  "C01": dict(cat="exploration", tech="deterministic simulation: worlds built by the real builder under seeded schedules, compared with a reference model of each module's dependencies (from the generator's structured description) and a closure check over followed edges, redirects and the loader's request log",
    text="(A) for every loaded module with a structured description the recorded dependency map equals the model's under the resolver and graph kind; (B) the graph is exactly reachable-and-closed along the edges the kind and options follow, every loader request has an entry or redirect and every redirect is recorded. Sampled by seed over import forms x media types x schemes x kinds x options; orphans left behind by an importer that turned into an error are a listed finding.",
    note="The model never parses source text; URL joining is delegated to deno_graph::resolve_import. Same-attribute proviso enforced by the generator (source-phase imports only for targets not imported otherwise; no @ts-types on dynamic imports).", ref="DESIGN.md §3 C01"),
